@@ -64,7 +64,9 @@ type Frame struct {
 	deferred bool // this frame runs a deferred call of the frame below
 	callPos  string
 	pending  *DeferRec // deferred call being executed by this frame (model/builtin targets rest here)
-	opTag    string    // identity of the concretized operand of the visible op at (opTagBlk, opTagIdx)
+	hookBlk  int
+	hookIdx  int
+	opTag    string // identity of the concretized operand of the visible op at (opTagBlk, opTagIdx)
 	opTagBlk int
 	opTagIdx int
 	onReturn func(e *Engine, c *Config, res Value)
@@ -80,6 +82,7 @@ type Config struct {
 	held   map[*Cell]*Term // ghost lockset: mutex cell -> BV2 mode (0 none, 1 read, 2 write)
 	done   bool
 	atomic int // >0: inside verifAtomic (visible ops run inline)
+	inHook int
 	ok     []int
 	mk     string
 }
@@ -149,6 +152,7 @@ type Engine struct {
 	stepMax       int
 	noPOR         bool
 	randLog       []RandRec
+	beforeHooks   map[string]Value
 	unwindFn      map[string]int
 	usedMemo      map[string]map[ssa.Value]bool
 	tryFailCount  *Term
@@ -306,7 +310,7 @@ func (e *Engine) mergeKey(c *Config) string {
 		}
 		sb.WriteString("|")
 	}
-	fmt.Fprintf(&sb, "ph%d.a%d", c.phase, c.atomic)
+	fmt.Fprintf(&sb, "ph%d.a%d.h%d", c.phase, c.atomic, c.inHook)
 	return sb.String()
 }
 
